@@ -27,6 +27,7 @@ import (
 	"verifharness/hx"
 	"verifharness/mk"
 	"verifharness/oracle/cssval"
+	"verifharness/oracle/htmlclean"
 	"verifharness/oracle/jsrun"
 	"verifharness/oracle/svgpath"
 )
@@ -542,7 +543,6 @@ var rePrefixUpdateExp = regexp.MustCompile(`(\+\+|--)[\w$.\[\]]+\*\*`)
 var rePIWithGT = regexp.MustCompile(`<\?(?:[^?>]|\?+[^?>])*>`)
 var reOptChainTemplate = regexp.MustCompile("\\?\\.[\\w$.]*`")
 var reInfinityTarget = regexp.MustCompile(`\bInfinity\s*(=[^=]|\+\+|--|\bin\b|\bof\b|[\]},])|(\+\+|--)\s*Infinity\b`)
-var reSelfClosingForeign = regexp.MustCompile(`(?i)<(svg|math)\b[^>]*/>`)
 
 func firstOutput(c Case) []byte {
 	mt := seeds.Mediatype[c.Kind]
@@ -552,6 +552,7 @@ func firstOutput(c Case) []byte {
 
 var reNulRef = regexp.MustCompile(`&#(0+|[xX]0+);`)
 var reAwait = regexp.MustCompile(`\bawait\b`)
+var reDelimBeforeBrace = regexp.MustCompile(`[{;]\s*\*\s*\}`)
 var reElseLexical = regexp.MustCompile(`else\s*\{[^{}]*\b(let|const|class)\b`)
 
 func matchKnown(c Case, err error) string {
@@ -581,10 +582,17 @@ func matchKnown(c Case, err error) string {
 		if strings.Contains(msg, "valid JS") && reInfinityTarget.Match(c.src()) && bytes.Contains(out, []byte("1/0")) {
 			return "C09-infinity-assignment-target"
 		}
-		// self-closing svg / math in the first output
-		if c.Kind == "html" && strings.Contains(msg, "rejects its own output") && reSelfClosingForeign.Match(out) {
-			return "C09-html-selfclosing-svg"
+	}
+	// HTML with tokenizer-level parse errors: where tags start and end is then a matter of error recovery,
+	// in which the lexer of the dependency differs from the standard and from itself on rewritten markup
+	if c.Kind == "html" && c.Source == "mutated" && strings.Contains(msg, "rejects its own output") {
+		if ok, _ := htmlclean.Clean(c.src()); !ok {
+			return "C09-html-tokenizer-parse-errors"
 		}
+	}
+	// a lone delimiter right before the closing brace of a block
+	if (c.Kind == "css" || c.Kind == "html" || c.Kind == "svg") && strings.Contains(msg, "unbalanced brackets") && reDelimBeforeBrace.Match(c.src()) {
+		return "C09-css-delim-before-brace"
 	}
 	// &#0; decoded to a NUL byte
 	if strings.Contains(msg, "unexpected NULL character") && reNulRef.Match(c.src()) {
@@ -606,6 +614,21 @@ func matchKnown(c Case, err error) string {
 func TestReplay(t *testing.T) {
 	defer jsrun.Default.Close()
 	hx.ReplayTest(t, func(f hx.Failure) error {
+		var g struct {
+			GoFuzz string `json:"gofuzz"`
+		}
+		stdjson.Unmarshal(f.Case, &g)
+		if g.GoFuzz != "" {
+			args, err := hx.ParseGoFuzz(g.GoFuzz)
+			if err != nil || len(args) < 2 {
+				return fmt.Errorf("bad go fuzz file: %v", err)
+			}
+			kind := strings.ToLower(strings.TrimPrefix(strings.TrimPrefix(f.Check, "native-fuzz:"), "Fuzz"))
+			b, _ := args[0].([]byte)
+			o, _ := args[1].(uint8)
+			_, _, err = check(fuzzCase(kind, b, o))
+			return err
+		}
 		var c Case
 		if err := stdjson.Unmarshal(f.Case, &c); err != nil {
 			return err
@@ -614,3 +637,51 @@ func TestReplay(t *testing.T) {
 		return err
 	})
 }
+
+// native fuzzing per media type, the same oracle inside the target; the option byte selects one of a few
+// option sets. Known findings are excluded inside the target so that the campaign continues.
+var fuzzOpts = []mk.Options{{}, {JSKeepVars: true, HTMLKeepWhitespace: true, HTMLKeepEndTags: true, HTMLKeepQuotes: true, HTMLKeepDocTags: true, CSSKeepCSS2: true, XMLKeepWhitespace: true, JSONKeepNumbers: true, SVGKeepComments: true, JSVersion: 2015}, {HTMLKeepComments: true, HTMLKeepDefaultAttrs: true, HTMLKeepSpecial: true, SVGPrecision: 2, CSSPrecision: 2, JSPrecision: 2, JSONPrecision: 2}}
+
+func fuzzCase(kind string, b []byte, o uint8) Case {
+	c := Case{Kind: kind, Opts: fuzzOpts[int(o)%len(fuzzOpts)], Source: "mutated"}
+	setSrc(&c, b)
+	return c
+}
+
+func fuzzKind(f *testing.F, kind string) {
+	for i, s := range seeds.Snippets(kind) {
+		if i < 400 && len(s) < 2048 {
+			f.Add([]byte(s), uint8(i%3))
+		}
+	}
+	for _, fl := range seeds.Files(kind, 16<<10) {
+		f.Add(fl.Data, uint8(0))
+	}
+	for _, h := range []string{"</script>", "<!--", "]]>", "${", "\u2028", "0b1", "1e400", "\\0001", "<svg/>", "&#0;"} {
+		f.Add([]byte(h), uint8(0))
+	}
+	f.Fuzz(func(t *testing.T, b []byte, o uint8) {
+		if len(b) > 64<<10 {
+			return
+		}
+		c := fuzzCase(kind, b, o)
+		_, _, err := check(c)
+		if err == nil {
+			return
+		}
+		if strings.HasPrefix(err.Error(), "HARNESS:") {
+			t.Skip(err.Error())
+		}
+		if id := matchKnown(c, err); id != "" && hx.IsKnown(id) {
+			return
+		}
+		t.Fatal(err)
+	})
+}
+
+func FuzzJS(f *testing.F)   { fuzzKind(f, "js") }
+func FuzzHTML(f *testing.F) { fuzzKind(f, "html") }
+func FuzzCSS(f *testing.F)  { fuzzKind(f, "css") }
+func FuzzSVG(f *testing.F)  { fuzzKind(f, "svg") }
+func FuzzXML(f *testing.F)  { fuzzKind(f, "xml") }
+func FuzzJSON(f *testing.F) { fuzzKind(f, "json") }
